@@ -231,6 +231,80 @@ def step(x, p):
                         known=sig)
 
 
+def gen_token(x, tag, fam):
+    """A token of family fam built from the grammar: (source text, class,
+    decoded value or None)."""
+    b = x.bytes(tag, 1)
+    c = b[0]
+    if fam[0] == 'long':
+        x.assume(And(c != 93, c != 10, c != 13))
+        eq = b'=' * fam[1]
+        return (b'[' + eq + b'[' + b + b']' + eq + b']', lexer.TokString, b)
+    if fam[0] == 'longnl':
+        # a long string that spans a line end
+        x.assume(And(c != 93, c != 10, c != 13))
+        eq = b'=' * fam[1]
+        return (b'[' + eq + b'[' + b + b'\n' + b + b']' + eq + b']',
+                lexer.TokString, b + b'\n' + b)
+    if fam[0] == 'block':
+        x.assume(c != 93)
+        return (b'--[[' + b + b']]', lexer.TokComment, None)
+    if fam[0] == 'quoted':
+        q = bytes([fam[1]])
+        x.assume(And(c != fam[1], c != 92, c != 10, c != 13))
+        return (q + b + q, lexer.TokString, b)
+    if fam[0] == 'name':
+        x.assume(And(c >= 97, c <= 122))
+        return (b'v' + b, lexer.TokName, None)
+    x.assume(And(c >= 48, c <= 57))
+    return (b'1' + b, lexer.TokNumber, None)
+
+
+FAMILIES = [('long', 0), ('long', 1), ('long', 2), ('longnl', 0),
+            ('longnl', 1), ('block',), ('quoted', 34), ('quoted', 39),
+            ('name',), ('number',)]
+
+
+def sequence(x, p):
+    """Two tokens in a row, each built from the grammar (long strings of
+    different levels, block comments, both quote kinds, a name, a number):
+    the lexer must read the second one as if the first had never been there
+    - nothing learnt while reading one token may leak into the next.  Fed as
+    one chunk and line by line."""
+    fa = x.choice('A', FAMILIES)
+    fb = x.choice('B', FAMILIES)
+    sep = x.choice('sep', [b' ', b'\n'])
+    ta, ca, va = gen_token(x, 'a', fa)
+    tb, cb, vb = gen_token(x, 'b', fb)
+    text = ta + sep + tb + b'\n'
+    for chunking in ('whole', 'lines'):
+        lx = lexer.Lexer(version=8)
+        try:
+            if chunking == 'whole':
+                lx.process_lines([text])
+            else:
+                lx.process_lines(text.splitlines(True))
+            toks = lx.tokens
+        except Exception as e:
+            x.check('a sequence of two dialect tokens lexes (%s)' % chunking,
+                    False, info=repr(e))
+            continue
+        sig = [t for t in toks if not isinstance(
+            t, (lexer.TokSpace, lexer.TokNewline))]
+        x.check('two tokens, of the kinds written (%s)' % chunking, And(
+            len(sig) == 2, type(sig[0]) is ca if len(sig) == 2 else False,
+            type(sig[1]) is cb if len(sig) == 2 else False))
+        if len(sig) != 2:
+            continue
+        for t, v, src in ((sig[0], va, ta), (sig[1], vb, tb)):
+            if v is not None:
+                x.check('decoded string value (%s)' % chunking, t.value == v)
+            else:
+                x.check('token text = source extent (%s)' % chunking,
+                        t.code == src)
+        x.out('n-' + chunking, len(toks))
+
+
 def number_value(x, p):
     """TokNumber.value for hex / binary literals with fractions: exact
     rational comparison (the float operations involved are exact for these
@@ -306,7 +380,11 @@ for _n in (0, 1, 2, 3, 4, 5):
     THOROUGH += all_modes(_n, 900)
 THOROUGH += [{'mode': ['normal'], 'n': 6, '_budget': 1800}]
 
+QUICK += [{'mode': ['long', 0], 'pre': a, 'n': 3, '_budget': 300}
+          for a in ('\n', '\r', '\r\n', '\n\r', 'a\n')]
+QUICK += [{'mode': ['long', 1], 'pre': '\n\n', 'n': 3, '_budget': 300}]
 HARNESSES = [
+    Harness('sequence', sequence, quick=[{'_budget': 600}]),
     Harness('step', step, quick=QUICK, thorough=THOROUGH),
     Harness('number_value', number_value,
             quick=[{'base': 16, 'ni': 2, 'nf': 2}, {'base': 2, 'ni': 3,
